@@ -1,3 +1,198 @@
 import TTModel.Proto
-/-! C03 driver — stub (not built yet): answers `bad-op` to everything. -/
-def main : IO Unit := TT.Proto.mainLoop fun _ => "bad-op"
+import TTModel.Scalar
+import TTModel.C03_Rescale
+/-!
+C03 driver. Runs the model of `TTModel/C03_Rescale.lean` at `Rat` (exact; the extended-range
+reference of the property) and at `Float`.
+
+Requests (one line, space separated):
+
+* `run <R|F> <plain|resc|safe|tsplain|tsresc> <x|l> N K S ntrip nb ntips thr  triples… mats… freqs… props… weights… tips…`
+  - all numbers except the integers are 16-hex-digit IEEE bit patterns; under `R` each is converted
+    to the rational it denotes exactly, so model and implementation get identical inputs;
+  - `mats` in order `[branch][category][row][col]`, tips `[tip][site][state]` (partials) or
+    `[tip][site]` integer states (`ts…` variants); `thr` only matters for `safe`
+    (= plain pass, then the safe pass on what it left, as `calculate_with_tip_partials` does);
+  - reply `ok total <v> logs <N v> [nodes <ntrip*N*K*S v> nsc <m> scalers <m*N v> resc <m ints>]`
+    (`nodes` = final slot of every triple's node, in triple order, `[site][category][state]`)
+    (`x` = with the bracketed part). `v` is `p/q` under `R`, hex bits under `F`.
+    `logs[n]` = per-site `log(site value) + Σ log scalers`; `total` = the model's
+    `logLikPlain/logLikScaled`. Under `R`, `log` is taken by exact decomposition
+    `log(p/q) = (⌊log2 p⌋ - ⌊log2 q⌋)·ln2 + log(mant p) - log(mant q)` (64-bit mantissas).
+  - `nonpos` when a logarithm of a non-positive number would be needed; `empty-post` /
+    `empty-scalers` where the code raises (`post_indexing[-1]`, `torch.cat([])`).
+* `wf T ntrip triples…` → `1`/`0`
+* `flags <ts:0|1> <r0:0|1> b1 b2 …` → `<branches> <final flag>`
+* `lograt p/q` → hex bits of the decomposition logarithm (for cross-checking it)
+-/
+open TT TT.Proto TT.C03
+
+/-- exact rational denoted by an IEEE double bit pattern (none for inf/nan) -/
+def ratOfBits (b : UInt64) : Option Rat :=
+  let n : Nat := b.toNat
+  let sign : Nat := n >>> 63
+  let e : Nat := (n >>> 52) % 2048
+  let m : Nat := n % (2 ^ 52)
+  let full : Nat := m + 2 ^ 52
+  if e = 2047 then none else
+  let v : Rat :=
+    if e = 0 then mkRat (Int.ofNat m) (2 ^ 1074)
+    else if e ≥ 1075 then ((Int.ofNat (full * 2 ^ (e - 1075)) : Int) : Rat)
+    else mkRat (Int.ofNat full) (2 ^ (1075 - e))
+  some (if sign = 1 then -v else v)
+
+/-- `n = mant · 2^ex` with `mant ∈ [1,2)` as a Float (top 63 bits kept) -/
+def natMant (n : Nat) : Float × Nat :=
+  let b := n.log2
+  let top : Nat := if b > 62 then n >>> (b - 62) else n <<< (62 - b)
+  (top.toFloat / (2 ^ 62 : Nat).toFloat, b)
+
+/-- logarithm of a positive rational through an exact decomposition -/
+def logRat (r : Rat) : Float :=
+  let (mp, bp) := natMant r.num.toNat
+  let (mq, bq) := natMant r.den
+  let k : Int := (bp : Int) - (bq : Int)
+  Float.ofInt k * Float.log 2.0 + (Float.log mp - Float.log mq)
+
+instance : Trans Rat where
+  exp _ := 0
+  log r := if r > 0 then (ratOfBits (logRat r).toBits).getD 0 else 0
+  sqrt _ := 0
+  pow _ _ := 0
+
+structure Cfg (α : Type) where
+  ofBits : UInt64 → Option α
+  showV : α → String
+  pos : α → Bool
+
+def cfgR : Cfg Rat := ⟨ratOfBits, showRat, fun r => decide (r > 0)⟩
+def cfgF : Cfg Float := ⟨fun b => some (Float.ofBits b), floatBits, fun x => decide (x > 0)⟩
+
+def takeN (n : Nat) (ws : List String) : Option (List String × List String) :=
+  if ws.length < n then none else some (ws.take n, ws.drop n)
+
+def parseNats (ws : List String) : Option (List Nat) := ws.mapM String.toNat?
+
+def parseVals {α} (c : Cfg α) (ws : List String) : Option (Array α) :=
+  (ws.mapM fun w => do let n ← parseHex w; c.ofBits n.toUInt64).map List.toArray
+
+def triplesOf : List Nat → List Triple
+  | a :: b :: c :: rest => (a, b, c) :: triplesOf rest
+  | _ => []
+
+section run
+variable {α : Type} [Add α] [Mul α] [Zero α] [One α] [Div α] [Max α] [LT α] [DecidableLT α] [Trans α]
+
+def idx {n : Nat} (i : Fin n) : Nat := i.val
+
+def showPart {N K S : Nat} (c : Cfg α) (p : Part α N K S) : String :=
+  " ".intercalate ((List.finRange N).flatMap fun n => (List.finRange K).flatMap fun k =>
+    (List.finRange S).map fun s => c.showV (p.get n k s))
+
+def runModel (c : Cfg α) (variant : String) (ex : Bool) (N K S : Nat) (ts : List Triple)
+    (ntips : Nat) (thr : α) (mats freqs props weights : Array α) (tipsV : Array α)
+    (tipsS : Array Nat) : String :=
+  let M : Mats α K S := fun b k i j => mats.getD (((b * K + k.val) * S + i.val) * S + j.val) 0
+  let fr : Fin S → α := fun s => freqs.getD s.val 0
+  let pr : Fin K → α := fun k => props.getD k.val 0
+  let w : Fin N → α := fun n => weights.getD n.val 0
+  let st0 : Store α N K S := tipStore fun i n s => if i < ntips then tipsV.getD ((i * N + n.val) * S + s.val) 0 else 0
+  let states : Nat → Fin N → Nat := fun i n => tipsS.getD (i * N + n.val) S
+  let z : Nat → Fin N → Fin K → Fin S → α := noTips
+  let root := rootOf ts
+  -- (final store, scalers, rescaled nodes)
+  let res : Option (Store α N K S × List (Vector α N) × List Nat) :=
+    match variant with
+    | "plain" => some (peel 0 z M st0 ts, [], [])
+    | "tsplain" => some (peel (ts.length + 1) (tipVec M states) M st0 ts, [], [])
+    | "resc" => let rs := peelRescaled 0 z M st0 ts; some (rs.st, rs.scalers, ts.map (·.1))
+    | "tsresc" =>
+      let rs := peelRescaled (ts.length + 1) (tipVec M states) M st0 ts
+      some (rs.st, rs.scalers, ts.map (·.1))
+    | "safe" =>
+      let st1 := peel 0 z M st0 ts
+      let ss := peelSafe thr M st1 ts
+      some (ss.st, ss.scalers, (ts.map (·.1)).filter ss.flags)
+    | _ => none
+  match res with
+  | none => "bad-op"
+  | some (st, scalers, rescN) =>
+    -- the code raises here: `post_indexing[-1]` on an empty list; `torch.cat([])` when no scaler was appended
+    if ts.isEmpty then "empty-post" else
+    if scalers.isEmpty && !(variant == "plain" || variant == "tsplain") then "empty-scalers" else
+    let rootP := st.get root
+    let sites := List.finRange N
+    let okPos := sites.all fun n => c.pos (siteLik fr pr rootP n) && scalers.all fun sc => c.pos sc[n]
+    if !okPos then "nonpos" else
+    let logs := sites.map fun n => Trans.log (siteLik fr pr rootP n) + logScalers scalers n
+    let total := if scalers.isEmpty && (variant == "plain" || variant == "tsplain")
+      then logLikPlain fr pr w rootP else logLikScaled fr pr w rootP scalers
+    let base := s!"ok total {c.showV total} logs {" ".intercalate (logs.map c.showV)}"
+    if ex then
+      let scs := " ".intercalate (scalers.flatMap fun sc => sites.map fun n => c.showV sc[n])
+      let nodes := " ".intercalate (ts.map fun t => showPart c (st.get t.1))
+      s!"{base} nodes {nodes} nsc {scalers.length} scalers {scs} resc {" ".intercalate (rescN.map toString)}"
+    else base
+
+end run
+
+def handleRun {α : Type} [Add α] [Mul α] [Zero α] [One α] [Div α] [Max α] [LT α] [DecidableLT α]
+    [Trans α] (c : Cfg α) (variant out : String) (rest : List String) : Option String := do
+  let (hd, rest) ← takeN 6 rest
+  let [N, K, S, ntrip, nb, ntips] ← parseNats hd | none
+  let (thrW, rest) ← takeN 1 rest
+  let thr ← (← parseVals c thrW)[0]?
+  let (tw, rest) ← takeN (3 * ntrip) rest
+  let ts := triplesOf (← parseNats tw)
+  let (mw, rest) ← takeN (nb * K * S * S) rest
+  let mats ← parseVals c mw
+  let (fw, rest) ← takeN S rest
+  let freqs ← parseVals c fw
+  let (pw, rest) ← takeN K rest
+  let props ← parseVals c pw
+  let (ww, rest) ← takeN N rest
+  let weights ← parseVals c ww
+  let isTS := variant == "tsplain" || variant == "tsresc"
+  let ex ← match out with | "x" => some true | "l" => some false | _ => none
+  if isTS then
+    let (sw, rest) ← takeN (ntips * N) rest
+    if !rest.isEmpty then none
+    let sts ← parseNats sw
+    pure (runModel c variant ex N K S ts ntips thr mats freqs props weights #[] sts.toArray)
+  else
+    let (vw, rest) ← takeN (ntips * N * S) rest
+    if !rest.isEmpty then none
+    let tv ← parseVals c vw
+    pure (runModel c variant ex N K S ts ntips thr mats freqs props weights tv #[])
+
+def showBranch : Branch → String
+  | .plain => "plain" | .plainThenSafe => "plain+safe" | .plainThenResc => "plain+resc"
+  | .rescaled => "rescaled"
+
+def parseBool : String → Option Bool | "1" => some true | "0" => some false | _ => none
+
+def handle (line : String) : String :=
+  match splitWords line with
+  | "run" :: sc :: variant :: out :: rest =>
+    match sc with
+    | "R" => (handleRun cfgR variant out rest).getD "bad-op"
+    | "F" => (handleRun cfgF variant out rest).getD "bad-op"
+    | _ => "bad-op"
+  | "wf" :: t :: n :: rest =>
+    match t.toNat?, n.toNat?, parseNats rest with
+    | some T, some n, some xs =>
+      if xs.length ≠ 3 * n then "bad-op" else if wf T (triplesOf xs) then "1" else "0"
+    | _, _, _ => "bad-op"
+  | "flags" :: tsw :: r0 :: bs =>
+    match parseBool tsw, parseBool r0, bs.mapM parseBool with
+    | some tsb, some r, some bs =>
+      let (brs, rf) := flagRun tsb r bs
+      s!"{",".intercalate (brs.map showBranch)} {if rf then 1 else 0}"
+    | _, _, _ => "bad-op"
+  | ["lograt", w] =>
+    match parseRat w with
+    | some r => if r > 0 then floatBits (logRat r) else "nonpos"
+    | none => "bad-op"
+  | _ => "bad-op"
+
+def main : IO Unit := mainLoop handle
